@@ -48,6 +48,7 @@ pub fn bit_positions(n: usize, rng: &mut Rng, budget: usize) -> Vec<usize> {
         }
     }
     v.extend([n + 2, 1usize << 32, 1usize << 43, usize::MAX - 1, usize::MAX]);
+    v.extend(crate::util::wrap_positions(n));
     v.sort_unstable();
     v.dedup();
     v
